@@ -40,6 +40,13 @@ def st_list(s):
 def impl(op, a):
     from dlms_cosem import time as t
 
+    if op == "datetime_from_bytes":
+        return lib.bytes_and_bytearray(lambda x: (lambda dt, st: [canon_dt(dt), st_list(st)])(*t.datetime_from_bytes(x)), a, _val)
+    if op == "date_from_bytes":
+        return lib.bytes_and_bytearray(lambda x: (lambda d: [d.year, d.month, d.day])(t.date_from_bytes(x)), a, _val)
+    if op == "time_from_bytes":
+        return lib.bytes_and_bytearray(lambda x: (lambda y: [y.hour, y.minute, y.second, y.microsecond])(t.time_from_bytes(x)), a, _val)
+
     def f():
         if op == "datetime_to_bytes":
             st = None if a[1] is None else t.ClockStatus(*a[1])
